@@ -115,6 +115,12 @@ def run(chk):
     for ncpu in ((2, 3) if not thorough else (2, 3, 7, 16)):
         configs.append((big, ncpu, 1, None, "lev", 1))
     configs.append((big[:131], 2, 2, 2, "ham", 1))
+    # more than 257 sequences (positions beyond the small integers CPython shares): no position is its own neighbour, with and
+    # without max_returns, serial and parallel
+    big2 = gen.repertoire(rng, 331 if not thorough else 1500, minlen=5, maxlen=7, allow_empty=False)
+    configs.append((big2, 1, 1, None, "lev", 1))
+    configs.append((big2, 2, 2, 2, "lev", 1))
+    configs.append((sorted(big2, key=len), 1, 1, 1, "ham", 1))
     # boundary of the candidate ball: pairs that differ by exactly k substitutions of one letter by one other letter sit at
     # squared composition distance 2k^2 = (sqrt(2) k)^2, for every k, mode and (bin-separating) compression
     for k in (1, 2, 3, 4, 5, 6, 7):
